@@ -544,3 +544,95 @@ def impl_fill(cells, fd, fg, rng):
     except RecursionError:
         return free_key, ('err', 'EFuel')
     return free_key, ('ok', from_cell_dict(dic), conv.new_cell_key)
+
+
+# ---------------------------------------------------------------------------
+# the FILL loop with transformations, captured from a real conversion
+# ---------------------------------------------------------------------------
+
+class Unsupported(Exception):
+    pass
+
+
+def snapshot_cells(mcnp_dict, mats):
+    from MIP.geom.semantics import Surface
+    cells, tinfo = [], []
+
+    def check(geom):
+        if isinstance(geom, Surface) and geom.sub is not None:
+            raise Unsupported('facet reference')
+        if isinstance(geom, (list, tuple)):
+            if geom[0] not in '*:':
+                raise Unsupported(f'operator {geom[0]!r}')
+            for g in geom[1:]:
+                check(g)
+    for key, c in mcnp_dict.items():
+        check(c.geometry)
+        if c.lattice:
+            raise Unsupported('lattice cell left')
+        tag = mats.setdefault((str(c.materialID), str(c.density)), len(mats))
+        cells.append((int(key), {
+            'u': int(c.universe),
+            'fill': None if c.fillid is None else int(c.fillid),
+            'geom': from_py_geom(c.geometry),
+            'origin': [(int(a), int(b)) for a, b in c.idorigin],
+            'mat': tag}))
+        ft = tuple(float(x) for x in c.filltr) if c.filltr else None
+        tc = [tuple(float(x) for x in t) for t in (c.trcl or [])]
+        if ft is not None or tc:
+            tinfo.append((int(key), (ft, tc)))
+    return cells, tinfo
+
+
+def impl_fill_tr(deck_text, args):
+    '''Run the real conversion and capture the cell table just before the FILL
+    loop (at by_universe) and just after it (at inline_cells).  Returns
+    (pre, post) or None when the conversion does not get that far.'''
+    from t4_geom_convert.Kernel.Volume import ConstructVolumeT4 as CV
+    import impl
+    cap, mats = {}, {}
+    real_by, real_inl, real_cls = CV.by_universe, CV.inline_cells, \
+        CV.CellConversion
+
+    class Spy(real_cls):
+        def __init__(self, *a, **kw):
+            super().__init__(*a, **kw)
+            cap['conv'] = self
+
+    def spy_by(mcnp_dict):
+        conv = cap['conv']
+        try:
+            cells, tinfo = snapshot_cells(mcnp_dict, mats)
+            cap['pre'] = (cells, tinfo, conv.new_cell_key, conv.new_surf_key,
+                          len(conv.cell_transform_cache))
+        except Unsupported as exc:
+            cap['skip'] = str(exc)
+        return real_by(mcnp_dict)
+
+    def spy_inl(mcnp_dict, score):
+        conv = cap['conv']
+        try:
+            cells, _ = snapshot_cells(mcnp_dict, mats)
+            cap['post'] = (cells, conv.new_cell_key, conv.new_surf_key)
+        except Unsupported as exc:
+            cap['skip'] = str(exc)
+        return real_inl(mcnp_dict, score)
+    CV.by_universe, CV.inline_cells, CV.CellConversion = spy_by, spy_inl, Spy
+    try:
+        impl.convert(deck_text, args, keep_stdout=False)
+    finally:
+        CV.by_universe, CV.inline_cells, CV.CellConversion = \
+            real_by, real_inl, real_cls
+    if 'skip' in cap or 'pre' not in cap or 'post' not in cap:
+        return None
+    return cap['pre'], cap['post']
+
+
+def coq_tr(t):
+    return clist(cfloat(x) for x in t)
+
+
+def coq_tinfo(tinfo):
+    return clist(cpair(cz(k), cpair(copt(ft, coq_tr),
+                                     clist(coq_tr(t) for t in tc)))
+                 for k, (ft, tc) in tinfo)
